@@ -89,6 +89,72 @@ def duplicate_identity(ctx, rule):
       ctx.ob(rule, fi, fn, False, why, construct='%s: a duplicate is the same signature at the same time' % meth, unknown=why)
 
 
+def chord_accidentals(ctx, rule):
+  """Location-independent, path-wise with numeric scenarios: the accidental of a chord-symbol root / bass / degree is written
+  with the spellings chord_symbols_lib reads: -2 'bb', -1 'b', 0 '', 1 '#', 2 '##' (a double sharp is '##', not the note-head
+  glyph 'x').  ChordSymbol._alter_to_string is read path by path, through a literal table if it uses one; for each of the five
+  alterations the value on the path whose conditions hold is evaluated (sa.strscen / sa.scenario)."""
+  from sa import pathval, strscen, scenario
+  fi = ctx.func('musicxml_parser:ChordSymbol._alter_to_string')
+  cons = 'chord-symbol accidentals are spelled bb, b, (none), #, ##'
+  want = {-2: 'bb', -1: 'b', 0: '', 1: '#', 2: '##'}
+  try:
+    ps = [(c, e) for c, e, end in pathval.paths(fi.node.body, opaque=True) if end == 'return' and pathval.RETURN in e]
+  except pathval.PathError as e:
+    why = 'cannot classify: %s' % e
+    ctx.ob(rule, fi, fi.node, False, why, construct=cons, unknown=why)
+    return
+  consts = strscen.Consts(fi)
+  # the integer the alteration text is converted to: int(<param>) wherever it occurs
+  prm = fi.params()[-1]
+  atoms = {'int(%s)' % prm}
+  for st in U.walk_stmts(fi.node):       # alter_semitones = int(alter_text) inside a try: the name stands for the integer
+    if isinstance(st, ast.Assign) and len(st.targets) == 1 and isinstance(st.targets[0], ast.Name) and norm_text(st.value) == 'int(%s)' % prm:
+      atoms.add(st.targets[0].id)
+  for k, w in sorted(want.items()):
+    got = []
+    unknown = False
+    nsub = dict((a_, nf.rat(U.E(repr(k)))) for a_ in atoms)
+    ssub = dict((a_, k) for a_ in atoms)
+    for conds, env in ps:
+      rel = [(c, p_) for c, p_ in conds if any(norm_text(x) in atoms for x in ast.walk(c))]
+      r = scenario.tv_all(rel, nsub) if rel else True
+      if r is None:
+        r = strscen.tv_all(rel, ssub, consts)
+      if r is None:
+        unknown = True
+      elif r:
+        v = strscen.val(env[pathval.RETURN], ssub, consts)
+        got.append(v)
+    if unknown or len(got) != 1 or got[0] is strscen.UNKNOWN:
+      why = 'cannot classify: the spelling returned for an alteration of %d is not determined (%d candidate paths)' % (k, len(got))
+      ctx.ob(rule, fi, fi.node, False, why, construct=cons + ' [%d]' % k, unknown=why)
+    else:
+      ctx.ob(rule, fi, fi.node, got[0] == w, 'an alteration of %d is spelled %r' % (k, w) if got[0] == w else
+             'an alteration of %d is spelled %r, chord symbols spell it %r (the reader in chord_symbols_lib knows only # and b: %r in a root, bass or degree makes the figure unreadable)' % (
+                 k, got[0], w, got[0]), construct=cons + ' [%d]' % k, definite=True)
+
+
+def tempo_independent_of_dynamics(ctx, rule):
+  """Location-independent: a <sound> element may carry tempo= and dynamics= together; the tempo mark is recorded whenever tempo= is
+  present.  No condition on the path to the statements that record the tempo may read the dynamics attribute."""
+  fi = ctx.func('musicxml_parser:Measure._parse_direction')
+  fn = fi.node
+  cons = 'a tempo mark is recorded whether or not the <sound> also sets dynamics'
+  sites = [st for st in U.walk_stmts(fn) for t, _v, _o in U.store_targets(st) if isinstance(t, ast.Attribute) and t.attr == 'qpm'] + \
+          [st for st in U.walk_stmts(fn) if isinstance(st, ast.Assign) and isinstance(st.value, ast.Call) and dotted(st.value.func) == 'Tempo']
+  if not sites:
+    why = 'cannot classify: _parse_direction records no tempo'
+    ctx.ob(rule, fi, fn, False, why, construct=cons, unknown=why)
+    return
+  for st in sites[:1]:
+    conds = [(U.expand_locals(fn, t, at=st), p) for t, p in U.path_conditions(fn, st)]
+    dyn = [(t, p) for t, p in conds if any(isinstance(x, ast.Constant) and x.value == 'dynamics' for x in ast.walk(t))]
+    ctx.ob(rule, fi, st, not dyn, 'the tempo is recorded under conditions on the tempo attribute only' if not dyn else
+           'the tempo of a <sound> element is recorded only when %s: <sound tempo="T" dynamics="D"/> leaves the tempo mark out, and every later note is timed at the old tempo' %
+           ' and '.join(('' if p else 'not ') + norm_text(t) for t, p in dyn), construct=cons, definite=True)
+
+
 def degree_subtract(ctx, rule):
   """Location-independent, path-wise with a string scenario: for <degree-type>subtract</degree-type> the modification string is
   'no' + the degree, whatever <degree-alter> says ("alter should be irrelevant when removing a scale degree").  Every path of
@@ -151,6 +217,8 @@ def degree_subtract(ctx, rule):
 def run(ctx):
   # location-independent analyses first: an anchored rule that gives up later must not mask them
   degree_subtract(ctx, 'DEGREE/subtract-is-no')
+  chord_accidentals(ctx, 'HARMONY/accidental-spelling')
+  tempo_independent_of_dynamics(ctx, 'TEMPO/independent-of-dynamics')
   duplicate_identity(ctx, 'DUP/identity-includes-time')
   schema_navigation(ctx)
   part_state(ctx)
